@@ -635,6 +635,15 @@ def _r13_4(prog: Program, res: Result) -> None:
                     it = defs[0] if len(defs) == 1 else it
                 if isinstance(it, ast.Call) and norm(it.func).split(".")[-1] in ("find_replace", "finditer"):
                     loops.append((n, it))
+        if not loops:
+            # no scan at all: the answer is derived from the FIRST candidate (search(..), next(finditer(..))) - candidates arrive in tree-walk
+            # order, so the one that starts at the first statement need not be the first
+            firsts = [c for c in prog.calls_in(fn) if norm(c.func).split(".")[-1] in ("search", "next")]
+            if firsts:
+                res.bad("R13.4", fn.loc(firsts[0]), fn.fq, f"{name}: exhaustive scan",
+                        f"{name}() looks at one candidate only ({short(firsts[0], 40)}): matches are reported by depth in the syntax tree, not from left to right, so a match "
+                        "nested at the start of the first statement comes after a shallower one further down and is never examined")
+                continue
         if len(loops) != 1:
             res.undecided("R13.4", fn.loc(), fn.fq, f"{name}: candidate scan", f"{len(loops)} loops over find_replace/finditer: scan written in an unrecognised way")
             continue
